@@ -128,7 +128,8 @@ impl Subject for StreamSubject {
     fn poll(&mut self, cx: &mut TaskCx<'_>) -> SubjPoll {
         match self.stream.poll_next_unpin(cx) {
             Poll::Ready(Some(item)) => {
-                record_event(canon::canon(&item));
+                // (observed through a clone, as the left arm of a `Tee` would see it)
+                record_event(canon::canon(&item.clone()));
                 keep_alive(&item);
                 if let Some(s) = self.sink.as_mut() {
                     s(item);
